@@ -279,6 +279,41 @@ T = [
     ("c02_before_passed_on_failure", "C02/R5", B,
      "            match result {\n                Ok(world) => {\n                    self.send_event(event::Cucumber::scenario(\n                        feature.clone(),\n                        rule.cloned(),\n                        scenario.clone(),\n                        event::Scenario::hook_passed(HookType::Before)\n                            .with_retries(retries),\n                    ));\n                    Ok(Some(world))\n                }",
      "            self.send_event(event::Cucumber::scenario(\n                feature.clone(),\n                rule.cloned(),\n                scenario.clone(),\n                event::Scenario::hook_passed(HookType::Before)\n                    .with_retries(retries),\n            ));\n            match result {\n                Ok(world) => Ok(Some(world)),"),
+    # ---- C11
+    ("c11_run_finished_not_recorded", "C11/R1", "src/writer/normalize.rs",
+     "            Ok((Cucumber::Finished, meta)) => self.queue.finished(meta),", "            Ok((Cucumber::Finished, meta)) => drop(meta),"),
+    ("c11_rule_scenario_queued_without_rule", "C11/R1", "src/writer/normalize.rs",
+     "                            &f,\n                            Some(r),\n                            s,", "                            &f,\n                            { drop(r); None },\n                            s,"),
+    ("c11_feature_finished_as_new_feature", "C11/R1", "src/writer/normalize.rs",
+     "                Feature::Finished => self.queue.feature_finished(meta.wrap(&f)),", "                Feature::Finished => self.queue.new_feature(meta.wrap(f)),"),
+    ("c11_passthrough_inverted", "C11/R2", "src/writer/normalize.rs",
+     "        if self.queue.is_finished_and_emitted() {\n            self.writer.handle_event(event, cli).await;", "        if !self.queue.is_finished_and_emitted() {\n            self.writer.handle_event(event, cli).await;"),
+    ("c11_passthrough_falls_through", "C11/R2", "src/writer/normalize.rs",
+     "            self.writer.handle_event(event, cli).await;\n            return;\n        }\n\n        match event.map(Event::split) {", "            self.writer.handle_event(event.clone(), cli).await;\n        }\n\n        match event.map(Event::split) {"),
+    ("c11_run_finished_before_drain", "C11/R3", "src/writer/normalize.rs",
+     "        while let Some(feature_to_remove) =\n            self.queue.emit((), &mut self.writer, cli).await\n        {\n            self.queue.remove(&feature_to_remove);\n        }\n\n        if let Some(meta) = self.queue.state.take_to_emit() {\n            self.writer\n                .handle_event(Ok(meta.wrap(Cucumber::Finished)), cli)\n                .await;\n        }",
+     "        if let Some(meta) = self.queue.state.take_to_emit() {\n            self.writer\n                .handle_event(Ok(meta.wrap(Cucumber::Finished)), cli)\n                .await;\n        }\n\n        while let Some(feature_to_remove) =\n            self.queue.emit((), &mut self.writer, cli).await\n        {\n            self.queue.remove(&feature_to_remove);\n        }"),
+    ("c11_drain_once", "C11/R3", "src/writer/normalize.rs",
+     "        while let Some(feature_to_remove) =\n            self.queue.emit((), &mut self.writer, cli).await\n        {", "        if let Some(feature_to_remove) =\n            self.queue.emit((), &mut self.writer, cli).await\n        {"),
+    ("c11_take_to_emit_leaves_pending", "C11/R4", "src/writer/normalize.rs",
+     "        if let Self::FinishedButNotEmitted(meta) = current {\n            Some(meta)", "        if let Self::FinishedButNotEmitted(meta) = current {\n            *self = current;\n            Some(meta)"),
+    ("c11_finished_and_emitted_too_early", "C11/R4", "src/writer/normalize.rs",
+     "        matches!(self.state, FinishedState::FinishedAndEmitted)", "        !matches!(self.state, FinishedState::NotFinished)"),
+    ("c11_remove_resets_state", "C11/R4", "src/writer/normalize.rs",
+     "        drop(self.fifo.remove(key));", "        drop(self.fifo.remove(key));\n        self.state = FinishedState::NotFinished;"),
+    ("c11_features_taken_from_back", "C11/R5", "src/writer/normalize.rs",
+     "        self.fifo.iter_mut().next().map(|(f, ev)| (f.clone(), ev))", "        self.fifo.iter_mut().next_back().map(|(f, ev)| (f.clone(), ev))"),
+    ("c11_scenario_events_lifo", "C11/R5", "src/writer/normalize.rs",
+     "        (!self.0.is_empty()).then(|| self.0.remove(0))", "        self.0.pop()"),
+    ("c11_rule_finished_before_drain", "C11/R6", "src/writer/normalize.rs",
+     "        while let Some((scenario, events)) = self.current_item() {\n            if let Some(should_be_removed) = events\n                .emit(\n                    (feature.clone(), Some(rule.clone()), scenario),\n                    writer,\n                    cli,\n                )\n                .await\n            {\n                self.remove(&should_be_removed);\n            } else {\n                break;\n            }\n        }\n\n        if let Some(meta) = self.state.take_to_emit() {\n            writer\n                .handle_event(\n                    Ok(meta.wrap(event::Cucumber::rule_finished(\n                        feature,\n                        rule.clone(),\n                    ))),\n                    cli,\n                )\n                .await;\n            return Some(rule);\n        }\n",
+     "        if let Some(meta) = self.state.take_to_emit() {\n            writer\n                .handle_event(\n                    Ok(meta.wrap(event::Cucumber::rule_finished(\n                        feature.clone(),\n                        rule.clone(),\n                    ))),\n                    cli,\n                )\n                .await;\n            return Some(rule);\n        }\n\n        while let Some((scenario, events)) = self.current_item() {\n            if let Some(should_be_removed) = events\n                .emit(\n                    (feature.clone(), Some(rule.clone()), scenario),\n                    writer,\n                    cli,\n                )\n                .await\n            {\n                self.remove(&should_be_removed);\n            } else {\n                break;\n            }\n        }\n"),
+    ("c11_scenario_removed_on_any_event", "C11/R6", "src/writer/normalize.rs",
+     "                matches!(ev.event, event::Scenario::Finished)\n                    .then(|| ev.retries);", "                (!matches!(ev.event, event::Scenario::Started))\n                    .then(|| ev.retries);"),
+    ("c11_feature_started_every_drain", "C11/R6", "src/writer/normalize.rs",
+     "            if let Some(meta) = events.initial.take() {", "            if let Some(meta) = events.initial {"),
+    ("c11_feature_removed_without_finished", "C11/R6", "src/writer/normalize.rs",
+     "                    .await;\n                return Some(f.clone());\n            }\n        }\n        None", "                    .await;\n            }\n            return Some(f.clone());\n        }\n        None"),
 ]
 
 
